@@ -115,9 +115,9 @@ func c05cRun(t *testing.T, w *vWorld, id int, injectAt int64) (calls int64, sent
 	}
 	vmust(gcA.ActivateGroupContext(nil))
 	calls = atomic.LoadInt64(&n)
-	if injectAt < 0 {
-		once.Do(inject) // after the activation has returned
-	}
+	// after the activation has returned (also when it made fewer secret-store calls than injectAt this time: the
+	// number of calls varies by one with the timing of the event loop)
+	once.Do(inject)
 	// sentinel: D's device entry arrives now (certainly after the subscription exists); once A has answered it, A's
 	// event loop has handled everything that was emitted before it
 	w.deliver(gcA.MetadataStore(), logHashes(gcD.MetadataStore()))
